@@ -2,8 +2,17 @@
 """Regenerates /verif/MANIFEST.json from harness/registry.py."""
 import json, os, sys
 here = os.path.dirname(os.path.dirname(os.path.abspath(__file__)))
-sys.path.insert(0, os.path.join(here, "harness"))
-import registry
+class registry:
+    CHECKS = {}
+    NOT_YET = {}
+rdir = os.path.join(here, "harness", "registry")
+for fn in sorted(os.listdir(rdir)):
+    if fn.endswith(".json"):
+        d = json.load(open(os.path.join(rdir, fn)))
+        if d.get("not_applicable"):
+            registry.NOT_YET[fn[:-5]] = d["not_applicable"]
+        else:
+            registry.CHECKS[fn[:-5]] = d
 props = [json.loads(l)["id"] for l in open(os.path.join(here, "properties.jsonl"))]
 checks = []
 for pid in props:
